@@ -9,7 +9,7 @@ PROPERTY = "C17"
 LEVEL = "exploration"
 RULE = ("History leg: Hypothesis-generated sequences (3-14 operations) over 4 module slots: add a fresh module {with its own "
         "_stackscope_install_glue_ | with built-in glue pending | both | neither | own glue that raises | built-in glue that "
-        "raises | both kinds with the module's own glue raising | a None entry | [during an extraction, by a hook that then calls extract_child(): the glue must have run when that nested extraction returns] | own glue that, when run, inserts a further glue-bearing helper module (which may be handled by the running extraction or the next one)}, remove, re-insert (same object or a new module object of the same name), extract; judged after "
+        "raises | both kinds with the module's own glue raising | a None entry | [during an extraction, by a hook that then calls extract_child(): the glue must have run when that nested extraction returns] | own glue that, when run, inserts a further glue-bearing helper module (which may be handled by the running extraction or the next one)}, remove, re-insert (same object, a new module object of the same name and kind, or - where the name belonged to a glue-less module or a None entry - a new module object that does have glue), extract; a third of the histories are built around one name changing hands (add, optionally extract, remove, re-insert, filler insertion, extract); judged after "
         "every extract by a model (per module object: own glue unrun?; per name: built-in glue pending and not superseded?): the "
         "set of glue functions run by that extraction equals the model's, exactly one RuntimeWarning per failing glue, extract "
         "returns normally; over the history no glue function ran twice and never both kinds for one module. Schedule leg "
@@ -33,11 +33,21 @@ def histories():
         st.tuples(st.just("add"), st.integers(0, 3), st.sampled_from(KINDS)).map(list),
         st.tuples(st.just("add"), st.integers(0, 3), st.sampled_from(KINDS)).map(list),
         st.tuples(st.just("remove"), st.integers(0, 3)).map(list),
-        st.tuples(st.just("readd"), st.integers(0, 3), st.sampled_from(["same", "new"])).map(list),
+        st.tuples(st.just("readd"), st.integers(0, 3), st.sampled_from(["same", "new", "newglue"])).map(list),
         st.just(["extract"]), st.just(["extract"]), st.just(["extract", "outermost"]), st.just(["extract", "since"]),
         # [extract, nested]: a hook inserts a glue-bearing module mid-extraction and starts a nested extract_child()
         st.tuples(st.just("nested"), st.integers(0, 3)).map(list))
     return st.lists(op, min_size=3, max_size=14).map(lambda ops: {"ops": _expand(ops) + [["extract"]]})
+
+
+def reuse_histories():
+    """a module name changes hands: [add slot k1] [extract]? [remove slot] [readd slot same/new/newglue] plus a filler insertion
+    so that the module count differs from the one at the last scan (the F4 fast path is not what this is about), then extract"""
+    return st.tuples(st.lists(st.tuples(st.just("add"), st.integers(2, 3), st.sampled_from(KINDS)).map(list), max_size=2),
+                     st.sampled_from(KINDS), st.booleans(), st.sampled_from(["same", "new", "newglue", "newglue"]),
+                     st.sampled_from(["none", "mod", "bi", "nonemod"]), st.booleans()).map(
+        lambda p: {"ops": p[0] + [["add", 0, p[1]]] + ([["extract"]] if p[2] else []) + [["remove", 0], ["readd", 0, p[3]]]
+                   + ([["add", 1, p[4]]] if p[5] else [["add", 1, p[4]], ["add", 2, "none"]]) + [["extract"]]})
 
 
 def _expand(ops):
@@ -114,7 +124,7 @@ def shard(arg):
     out = Outcome()
     interps = arg["interps"]
     with WorkerSet(interps, hooks=True) as ws:
-        fail = hyp_search(histories(), lambda c: check_history(ws, interps, c, out, arg["open"]), seed=arg["seed"],
+        fail = hyp_search(st.one_of(histories(), histories(), reuse_histories()), lambda c: check_history(ws, interps, c, out, arg["open"]), seed=arg["seed"],
                           max_examples=arg["n"], shrink=arg["shrink"])
         if fail:
             v = fail["violations"][0]
